@@ -81,7 +81,13 @@ func run(cfg *lib.Config, res *lib.Result) {
 	// generator so that the random types of the model fragment stay what they were
 	xr := lib.NewRng(cfg.Seed ^ 0x5eed01)
 	xt := lat.ExtTypes(xr, nRandomX, cfg.Thorough())
-	u := lat.NewUniverseWith(rng, nRandom, 0, xt, lat.ExtValues(xt))
+	xv := lat.ExtValues(xt)
+	// third wave: Float types with an infinite bound and the values that hold non-finite floats, the family of Object
+	// types with instances, twin systems of mutually recursive aliases
+	x3 := lat.Ext3Types(lib.NewRng(cfg.Seed^0x5eed04), cfg.Thorough())
+	xt = append(xt, x3...)
+	xv = append(xv, lat.Ext3Values(x3)...)
+	u := lat.NewUniverseWith(rng, nRandom, 0, xt, xv)
 	u.FillInst()
 	u.FillAsg()
 	for _, c := range u.Crashes {
@@ -89,6 +95,17 @@ func run(cfg *lib.Config, res *lib.Result) {
 	}
 	res.Extra["types"] = len(u.L)
 	res.Extra["values"] = len(u.V)
+	for _, sp := range u.Specs {
+		switch sp.K {
+		case "FloatB", "ValType", "Decl", "DeclOnce":
+			res.Count("pool.type." + sp.K)
+		}
+	}
+	for _, vs := range u.VSpec {
+		if vs.K == "New" {
+			res.Count("pool.value.New")
+		}
+	}
 	nT, nV := len(u.L), len(u.V)
 	hasInstance := make([]bool, nT)
 	for t := 0; t < nT; t++ {
